@@ -85,7 +85,8 @@ class Fmt:
         if r[0] != b"ok":
             return (_txt(r[0]), _txt(r[1]))
         leaves = [{"name": l[0].decode("utf-8", "replace"), "type": l[1], "tlen": l[2], "maxdef": l[3],
-                   "conv": (l[4][0] if l[4] else None), "logical": (tuple(l[5]) if l[5] else None)} for l in r[1]]
+                   "conv": (l[4][0] if l[4] else None), "logical": (tuple(l[5]) if l[5] else None),
+                   "scale": (l[6][0] if len(l) > 6 and l[6] else None), "precision": (l[7][0] if len(l) > 7 and l[7] else None)} for l in r[1]]
         rgs = [[[(None if c == [] else c) for c in col] for col in rg] for rg in r[2]]
         return ("ok", leaves, rgs)
 
@@ -264,7 +265,7 @@ def compare_column(exp, got, t, what):
 # ---------------------------------------------------------------------------------------------
 # spec encoder (C03): laid-out file descriptions as plain Python data (JSON-able), -> pqref s-expression
 #   lfile = {"leaves": [leaf], "rgs": [[chunk per leaf]], "created_by": str|None}
-#   leaf  = {"name", "type", "tlen", "optional", "conv", "logical": thrift tree | None}
+#   leaf  = {"name", "type", "tlen", "optional", "conv", "logical": thrift tree | None, "scale", "precision": int | None}
 #   chunk = {"codec": int, "stats": bool, "items": [item]}
 #   item  = {"dict": enc, "vals": [value]} | {"v2": bool, "n": int, "def": [run], "store": store, "iscomp": None|bool, "trail": hex}
 #   run   = ["r", count, v] | ["b", [v...]]
@@ -295,7 +296,8 @@ def _store(s):
 def lfile_sx(lf):
     leaves = [[l["name"].encode(), l["type"], l["tlen"], bool(l["optional"]),
                [] if l.get("conv") is None else [l["conv"]],
-               [] if l.get("logical") is None else [l["logical"]]] for l in lf["leaves"]]
+               [] if l.get("logical") is None else [l["logical"]],
+               [] if l.get("scale") is None else [l["scale"]], [] if l.get("precision") is None else [l["precision"]]] for l in lf["leaves"]]
     rgs = []
     for rg in lf["rgs"]:
         chunks = []
@@ -379,9 +381,11 @@ PTYPE_NAMES = ["BOOLEAN", "INT32", "INT64", "INT96", "FLOAT", "DOUBLE", "BYTE_AR
 
 def lfile_gallina(lf):
     """Gallina term of type Enc.lfile (logical types are dropped: None)"""
-    leaves = _g_list("{| ll_name := %s; ll_type := %s; ll_tlen := %d%%N; ll_optional := %s; ll_conv := %s; ll_logical := None |}" % (
+    leaves = _g_list("{| ll_name := %s; ll_type := %s; ll_tlen := %d%%N; ll_optional := %s; ll_conv := %s; ll_logical := None; ll_scale := %s; ll_prec := %s |}" % (
         _g_bytes(l["name"].encode()), PTYPE_NAMES[l["type"]], l["tlen"], "true" if l["optional"] else "false",
-        "None" if l.get("conv") is None else "Some %d%%Z" % l["conv"]) for l in lf["leaves"])
+        "None" if l.get("conv") is None else "Some %d%%Z" % l["conv"],
+        "None" if l.get("scale") is None else "Some %d%%Z" % l["scale"],
+        "None" if l.get("precision") is None else "Some %d%%Z" % l["precision"]) for l in lf["leaves"])
     rgs = []
     for rg in lf["rgs"]:
         chunks = []
